@@ -44,6 +44,31 @@ def defaultMaxBurstSize : Nat := 4 * 1024 * 1024
 def burstOf (bw : Nat) : Nat :=
   if bw / 64 < defaultMaxBurstSize then defaultMaxBurstSize else bw / 64
 
+/-! ### `SizeSuffix.Set`: the text of `--read-limit` / `--write-limit`
+
+A limit is written `<integer>[.<fraction>]<suffix>`; the suffix selects a binary multiplier
+(none = KiB, `B` = 1, `K`/`Ki`/`KiB` = 2¹⁰, `M…` = 2²⁰, `G…` = 2³⁰, `T…` = 2⁴⁰) and the value is
+`float64(text) · multiplier` truncated.  The model is exact integer arithmetic on the digit strings
+(the floor of the exact rational product).  The code's float64 product differs from it by float64
+rounding only: the nearest double of the decimal has a relative error of at most 2⁻⁵³ and scaling by
+a power of two is exact, so the truncated product lies within `1 + value·2⁻⁵²` of `sizeOf` — one byte
+per second at 281 TB/s (`256.009T`, seen by the correspondence run), nothing below 4 PB/s otherwise;
+the correspondence run compares with exactly that tolerance. -/
+
+/-- the number a digit string denotes -/
+def digitsVal (ds : List Nat) : Nat := ds.foldl (fun a d => a * 10 + d) 0
+
+/-- bytes per second denoted by integer part `ip`, fraction digits `frac` and multiplier `mult` -/
+def sizeOf (ip : Nat) (frac : List Nat) (mult : Nat) : Nat :=
+  ((ip * 10 ^ frac.length + digitsVal frac) * mult) / 10 ^ frac.length
+
+/-- multiplier of a suffix letter (`multiplierFromSymbol`); `none` = bad suffix -/
+def sizeMultiplier (c : Char) : Option Nat :=
+  match c.toLower with
+  | 'k' => some (2 ^ 10) | 'm' => some (2 ^ 20) | 'g' => some (2 ^ 30)
+  | 't' => some (2 ^ 40) | 'p' => some (2 ^ 50) | 'e' => some (2 ^ 60)
+  | _ => none
+
 /-- a `rate.Limiter`'s configuration: `rate` bytes (tokens) per second, `burst` tokens -/
 structure Limiter where
   rate : Nat
